@@ -799,6 +799,20 @@ func (v *fnVC) resolver(b *ssa.BasicBlock, st *State, over map[string]*T) func(s
 			}
 			return t
 		}
+		// a compiler-made cell (range-over-func jump flag `jump$N`) allocated in b or a dominating block: its address
+		if strings.HasPrefix(name, "jump_S_") {
+			for _, blk := range v.fn.Blocks {
+				if blk == b || blk.Dominates(b) {
+					for _, in := range blk.Instrs {
+						if al, ok := in.(*ssa.Alloc); ok && strings.ReplaceAll(al.Comment, "$", "_S_") == name {
+							if t, ok := v.vals[al]; ok {
+								return t
+							}
+						}
+					}
+				}
+			}
+		}
 		// any phi in a dominating block with that comment
 		for _, blk := range v.fn.Blocks {
 			if blk.Dominates(b) {
